@@ -600,6 +600,7 @@ func (x *ExtendedReport) Unmarshal(b []byte) error {
 		return err
 	}
 
+	x.Reports = nil
 	for len(buffer.bytes) > 0 {
 		var block ReportBlock
 
